@@ -164,7 +164,9 @@ func c08Walk(l *core.Ledger, rule, rootKey string, root *frame, ctx ssa.Value) i
 	return n
 }
 
-func c08B3(l *core.Ledger, r *rt) {
+func c08B3(l *core.Ledger, r *rt) { c08B3x(l, r, true) }
+
+func c08B3x(l *core.Ledger, r *rt, withCtxTest bool) {
 	var fn *ssa.Function
 	for _, f := range allFuncs(l.Prog, r.pkg) {
 		if f.Parent() == nil && f.Signature.Recv() != nil && isNamed(f.Signature.Recv().Type(), core.RootModule, "channel") {
@@ -210,7 +212,47 @@ func c08B3(l *core.Ledger, r *rt) {
 			okTest = true
 		}
 	})
-	l.Check(okTest, "C08-B3", key+"/ctx-test", send.Pos(), "already-cancelled requests are not written", "the stream write is not preceded by a test of the request's ctx.Err(): a cancelled call is still sent")
+	if !okTest {
+		// the test may sit in the callers instead: every call of sendMsg is
+		// dominated by the nil edge of ctx.Err() of the request it passes
+		ncall, nok := 0, 0
+		for _, g := range allFuncs(l.Prog, r.pkg) {
+			g := g
+			sx.AllInstrs(g, func(cn sx.Node, in ssa.Instruction) {
+				cc := sx.CallOf(in)
+				if cc == nil || cc.StaticCallee() != fn || len(cc.Args) < 2 {
+					return
+				}
+				ncall++
+				argOs := sx.Origins(cc.Args[1])
+				same := func(o sx.Origin) bool {
+					for _, a := range argOs {
+						if a.Kind == o.Kind && a.V == o.V && a.Index == o.Index {
+							return true
+						}
+					}
+					return false
+				}
+				m := func(o sx.Origin) bool {
+					c, ok := o.V.(*ssa.Call)
+					return o.Kind == sx.KCall && ok && c.Call.IsInvoke() && c.Call.Method.Name() == "Err" && sx.All(sx.Origins(c.Call.Value), sx.IsFieldNamed("ctx", same))
+				}
+				dom := false
+				sx.AllInstrs(g, func(_ sx.Node, in2 ssa.Instruction) {
+					if ifi, ok := in2.(*ssa.If); ok && isErrNonNil(ifi, m) != 0 && sx.EdgeDominates(g, errEdge(ifi, m, false), cn) {
+						dom = true
+					}
+				})
+				if dom {
+					nok++
+				}
+			})
+		}
+		okTest = ncall > 0 && nok == ncall
+	}
+	if withCtxTest {
+		l.Check(okTest, "C08-B3", key+"/ctx-test", send.Pos(), "already-cancelled requests are not written", "the stream write is not preceded by a test of the request's ctx.Err() (in sendMsg or in all of its callers): a cancelled call is still sent")
+	}
 	// (2) watcher goroutine
 	var watcher *ssa.Go
 	okWatcher := false
